@@ -232,6 +232,7 @@ def c06_tree():
             <field name="leader" type="Member"/>
             <break/>
             <length name="members_count" type="char"/>
+            <field name="season" type="char"/>
             <array name="members" type="Member" length="members_count" delimited="true" trailing-delimiter="false"/>
             <break/>
             <field name="closing" type="short"/>
@@ -322,7 +323,7 @@ def run_generated_roster(g, net, srv, EoWriter, EoReader, res, tr, fail):
     mk = lambda m: net.Member(rank=m[0], name=m[1])
     rest = g["members"][1:]
     closing = (g["members"][0][0] * 7 + 3) % 64009
-    pkt = srv.TalkRosterServerPacket(leader=mk(g["members"][0]), members=[mk(m) for m in rest], closing=closing)
+    pkt = srv.TalkRosterServerPacket(leader=mk(g["members"][0]), members=[mk(m) for m in rest], closing=closing, season=closing % 251 + 1)
     w = EoWriter()
     pkt.write(w)
     out = bytes(w.to_bytearray())
@@ -331,7 +332,7 @@ def run_generated_roster(g, net, srv, EoWriter, EoReader, res, tr, fail):
     res.count("probe.chunked_section_of_structs_only")
     # leader | count + first member | further members (separated, no trailing delimiter) | closing number
     chunks = [[("short", g["members"][0][0]), ("s", g["members"][0][1])]]
-    chunks.append([("char", len(rest))] + ([("short", rest[0][0]), ("s", rest[0][1])] if rest else []))
+    chunks.append([("char", len(rest)), ("char", closing % 251 + 1)] + ([("short", rest[0][0]), ("s", rest[0][1])] if rest else []))
     chunks += [[("short", m[0]), ("s", m[1])] for m in rest[1:]]
     chunks.append([("short", closing)])
     if out.count(0xFF) != len(chunks) - 1:
